@@ -44,7 +44,14 @@ CORPUS = [
 class C11(Prop):
     ID = "C11"
     MODULE = "AwProofs.Props.C11"
-    THEOREMS = []  # filled in below from the proof file's stage reached
+    THEOREMS = [
+        "AwProofs.C11.expr_parse_render",
+        "AwProofs.C11.stmt_parse_render",
+        "AwProofs.C11.query_means_text",
+        "AwProofs.C11.layout_independent",
+        "AwProofs.C11.call_denotes",
+        "AwProofs.C11.args_in_order",
+    ]
     TRUSTED = [
         "harness/registry_dump.py generates AwModel/Query/RegistryGen.lean from aw_query.functions on every run",
         "builtin bodies are recording stubs in the real registry (the real q2_function / q2_typecheck wrappers stay), so a call's value is the term name(args...) on both sides; the Python reference parser/evaluator and renderer (harness/qlang.py) are independent of the model and compared with the model's render/denote on every case",
@@ -54,8 +61,15 @@ class C11(Prop):
         "whitespace only around , : = ; (not directly inside brackets)",
         "builtins do not mutate the namespace dict they are handed; nesting below CPython's recursion limit",
     ]
-    LEVEL_TEXT = ""
-    LEVEL_NOTE = ""
+    LEVEL_TEXT = (
+        "Machine-checked Lean 4 theorems over a branch-for-branch model of the repaired query2 parser/interpreter: "
+        "query_means_text (for every well-formed program and every layout - arbitrary ASCII whitespace around , : = ; "
+        "and either quote style with escaped quotes - running the rendered text gives exactly what the program denotes, "
+        "for arbitrary builtin bodies over the registry generated from the source), expr_parse_render, stmt_parse_render, "
+        "layout_independent, call_denotes, args_in_order; all three planned stages reached, no _partial theorem; the "
+        "model, its render and its denote are compared with the real code and an independent Python reference on every run"
+    )
+    LEVEL_NOTE = "trusts: Lean kernel + propext/Quot.sound; model-code tie is differential (programs x layouts); ASCII, strings without ; and backslash, builtin bodies symbolic"
     TECHNIQUE = "Lean 4 proof over executable model + differential correspondence check + independent reference parser/evaluator"
     RULE = (
         "hand-written programs; programs generated from the grammar (nesting <= 4, every builtin of the generated "
